@@ -115,3 +115,75 @@ package git
 
 //@ property C16: (*TreeIter).NextEntry (Tree).Size ParseTree (*Tree).Iter (*ObjectHeaderIter).HasNext (*ObjectHeaderIter).Next NewObjectHeaderIter OIDFromBytes NewOID (OID).MarshalJSON ParseCommit ParseTag ParseBatchHeader ParseReference
 //@ property C15: configKeyMatchesPrefix (*Repository).GetConfig
+
+// ---------------------------------------------------------------- ref_filter.go (C06)
+// apply(f, r) is the meaning of a filter value: "f lets reference name r
+// through". It is a ghost function defined by cases on the dynamic type of f
+// (the `definition` axioms below); every implementation of
+// ReferenceFilter.Filter is verified against it (behavioural subtyping
+// obligations `subtype:git.ReferenceFilter.Filter`).
+
+//@ spec apply(f Iface, r string) bool
+//@ spec prefixMatch(p string, r string) bool = hasPrefix(r, p) && ((len(p) > 0 && p[len(p)-1] == '/') || len(r) == len(p) || r[len(p)] == '/')
+
+//@ iface ReferenceFilter.Filter
+//@   pure
+//@   ensures result == apply(self, refname)
+
+//@ axiom apply_inverse [definition]: forall f Iface, r string :: dyntype(f, "git.inverse") ==> apply(f, r) == !apply(unbox(f, "git.inverse").f, r)
+//@ axiom apply_intersection [definition]: forall f Iface, r string :: dyntype(f, "git.intersection") ==> apply(f, r) == (apply(unbox(f, "git.intersection").f1, r) && apply(unbox(f, "git.intersection").f2, r))
+//@ axiom apply_union [definition]: forall f Iface, r string :: dyntype(f, "git.union") ==> apply(f, r) == (apply(unbox(f, "git.union").f1, r) || apply(unbox(f, "git.union").f2, r))
+//@ axiom apply_all [definition]: forall f Iface, r string :: dyntype(f, "git.allReferencesFilter") ==> apply(f, r)
+//@ axiom apply_none [definition]: forall f Iface, r string :: dyntype(f, "git.noReferencesFilter") ==> !apply(f, r)
+//@ axiom apply_prefix [definition]: forall f Iface, r string :: dyntype(f, "git.prefixFilter") ==> apply(f, r) == prefixMatch(unbox(f, "git.prefixFilter").prefix, r)
+//@ axiom apply_regexp [definition]: forall f Iface, r string :: dyntype(f, "git.regexpFilter") ==> apply(f, r) == matchesK(reLang(unbox(f, "git.regexpFilter").re), keyof(r))
+
+//@ func (inverse).Filter
+//@   pure
+//@   ensures result == !apply(f.f, refname)
+
+//@ func (intersection).Filter
+//@   pure
+//@   ensures result == (apply(f.f1, refname) && apply(f.f2, refname))
+
+//@ func (union).Filter
+//@   pure
+//@   ensures result == (apply(f.f1, refname) || apply(f.f2, refname))
+
+//@ func (allReferencesFilter).Filter
+//@   pure
+//@   ensures result
+
+//@ func (noReferencesFilter).Filter
+//@   pure
+//@   ensures !result
+
+//@ func (regexpFilter).Filter
+//@   pure
+//@   ensures result == matchesK(reLang(f.re), keyof(refname))
+
+//@ func (include).Combine
+//@   pure
+//@   ensures forall r string :: apply(result, r) == ((f1 != nil && apply(f1, r)) || apply(f2, r))
+
+//@ func (exclude).Combine
+//@   pure
+//@   ensures forall r string :: apply(result, r) == ((f1 == nil || apply(f1, r)) && !apply(f2, r))
+
+//@ func (include).Inverted
+//@   pure
+//@   ensures dyntype(result, "git.exclude")
+
+//@ func (exclude).Inverted
+//@   pure
+//@   ensures dyntype(result, "git.include")
+
+//@ func PrefixFilter
+//@   pure
+//@   ensures forall r string :: apply(result, r) == (len(prefix) == 0 || prefixMatch(prefix, r))
+
+// "a /REGEXP/ must match the entire reference name" (C06): fullMatchK.
+//@ func RegexpFilter
+//@   pure
+//@   ensures result1 == nil ==> forall r string :: apply(result0, r) == fullMatchK(keyof(pattern), keyof(r))
+//@   ensures result1 != nil ==> result0 == nil
